@@ -416,7 +416,7 @@ static std::string run_case(const Args& a, long i, const std::string& path) {
                 R tolv = 1e-12L * (std::fabs(gi.volume) + gi.area * posmax);
                 if (std::fabs(geo.volume - gi.volume) > tolv) { cs.viol("tri_off:volume", "returned cell does not enclose the input volume"); break; }
             }
-            if (shrink / lmin > c1) { cs.viol("unfaithful:aabb_shrunk", "a side of the bounding box of returned cell " + std::to_string(k) + " (" + fams[k] + ") lies " + std::to_string((double)(shrink / lmin)) + " l_min inside the input bounding box"); break; }
+            if (shrink / lmin > c1) { cs.viol(std::string("unfaithful:aabb_shrunk") + (fams[k] == "dumbbell" ? ":necks_thinner_than_lmin" : ""), "a side of the bounding box of returned cell " + std::to_string(k) + " (" + fams[k] + ") lies " + std::to_string((double)(shrink / lmin)) + " l_min inside the input bounding box"); break; }
             if (dv > c2) { cs.viol(std::string("unfaithful:volume") + (fams[k] == "dumbbell" ? ":necks_thinner_than_lmin" : ""), "|V-V_in| of returned cell " + std::to_string(k) + " (" + fams[k] + ") is " + std::to_string((double)dv) + " l_min*A_in"); break; }
             if (dmax / lmin > c3) { cs.viol("unfaithful:node_off_surface", "a node of returned cell " + std::to_string(k) + " (" + fams[k] + ") is " + std::to_string((double)(dmax / lmin)) + " l_min away from the input surface"); break; }
             if (mode == TRI_ON) {
